@@ -31,6 +31,20 @@ def showStatus : Status → String
   | .active => "active"
   | .partialActive => "partial"
 
+/-- caller ids: `100` is the owner (owner permissions), `1..n` are plain users -/
+def isOwner (who : String) : Bool := who = "100"
+
+def parseLockAddr : String → Option LockAddr
+  | "sl" => some .simpleLock
+  | "coll" => some .otherSc
+  | "user" => some .notSc
+  | _ => none
+
+def showLockSc : LockSc → String
+  | .unset => "none"
+  | .simpleLock => "sl"
+  | .other => "other"
+
 def parseOp : List String → Option Op
   | ["addInitial", c, a1, a2] => do pure (.addInitial (← c.toNat?) (← a1.toNat?) (← a2.toNat?))
   | ["addLiq", _u, a1, a2, m1, m2] => do
@@ -54,6 +68,10 @@ def parseOp : List String → Option Op
   | ["setTrusted", "second", ri, ro, live] => do
       pure (.cfg (.setTrusted false (some ⟨← ri.toNat?, ← ro.toNat?, live = "1"⟩)))
   | ["advance", r] => do pure (.advance (← r.toNat?))
+  | ["setLockDeadline", who, e] => do pure (.lock (isOwner who) (.setDeadline (← e.toNat?)))
+  | ["setLockUnlock", who, e] => do pure (.lock (isOwner who) (.setUnlock (← e.toNat?)))
+  | ["setLockSc", who, a] => do pure (.lock (isOwner who) (.setSc (← parseLockAddr a)))
+  | ["epoch", e] => do pure (.epoch (← e.toNat?))
   | _ => none
 
 def showX : Option XPool → String
@@ -65,7 +83,26 @@ def showState (s : St) : String :=
   s!"r={s.r1},{s.r2} S={s.S} bal={s.bal1},{s.bal2} lpc={s.lpCirc} own={s.lpOwn} " ++
   s!"coll={s.coll1},{s.coll2} burn={s.burn1},{s.burn2} ext={s.ext1},{s.ext2} " ++
   s!"st={showStatus s.status} x1={showX s.x1} x2={showX s.x2} " ++
-  s!"sp={s.sp.cur},{s.sp.obs.length},{l.acc1},{l.acc2},{l.accS},{l.w},{l.round}"
+  s!"sp={s.sp.cur},{s.sp.obs.length},{l.acc1},{l.acc2},{l.accS},{l.w},{l.round} " ++
+  s!"lock={s.lockDeadline},{s.lockUnlockEpoch},{showLockSc s.lockSc} ep={s.epoch} slk={s.slk1},{s.slk2}"
+
+/-- what the caller of a successful operation received from the pair, by pool token:
+    (plain first, plain second, LOCKED first, LOCKED second).  Swaps: the output (plain or
+    locked) and, for fixed output, the refund of the input token; addLiq: the two refunds;
+    removeLiq: the two withdrawn amounts; nothing for the other operations. -/
+def received (op : Op) (o : Out) : Nat × Nat × Nat × Nat :=
+  match op with
+  | .swapIn .ab _ _ => (0, o.plainAmt, 0, o.lockedAmt)
+  | .swapIn .ba _ _ => (o.plainAmt, 0, o.lockedAmt, 0)
+  | .swapOut .ab _ _ => (o.v3, o.plainAmt, 0, o.lockedAmt)
+  | .swapOut .ba _ _ => (o.plainAmt, o.v3, o.lockedAmt, 0)
+  | .addLiq a1 a2 _ _ => (a1 - o.v2, a2 - o.v3, 0, 0)
+  | .removeLiq _ _ _ => (o.v1, o.v2, 0, 0)
+  | _ => (0, 0, 0, 0)
+
+def showOut (op : Op) (o : Out) : String :=
+  let (p1, p2, l1, l2) := received op o
+  s!"{o.v1} {o.v2} {o.v3} recv={p1},{p2} lk={l1},{l2}"
 
 def initOf (ws : List String) : St :=
   let total := (kvNat ws "total").getD 300
@@ -96,9 +133,12 @@ def handle (s : St) (line : String) : St × Option String :=
   match words line with
   | "W" :: rest => (initOf rest, some (" ".intercalate ("W" :: rest)))
   | "O" :: n :: rest =>
-      match (parseOp rest).bind (step s) with
-      | some (s', o) => (s', some s!"R {n} ok {o.v1} {o.v2} {o.v3} | {showState s'}")
+      match parseOp rest with
       | none => (s, some s!"R {n} err")
+      | some op =>
+        match step s op with
+        | some (s', o) => (s', some s!"R {n} ok {showOut op o} | {showState s'}")
+        | none => (s, some s!"R {n} err")
   | "Q" :: n :: rest =>
       match view s rest with
       | some v => (s, some s!"V {n} ok {v}")
